@@ -293,9 +293,9 @@ def mainLoop {α : Type} (act : Act α) : Nat → Option Tok → Src → Loop α
           else .ok ({ l with prods := prods, st := st, wellformed := false }, src)
         | .error .fuel => .unsupported
         | .error _ =>
-          if l.stopIf then .ok ({ l with prods := prods, st := st, stopall := true },
-                                { src with pushed := t :: src.pushed })
-          else .ok ({ l with prods := prods, st := st, wellformed := false }, src)
+          -- `except ParseError` (`prodparser.py:589-596`): Missing is an error also with `stopIfNoMoreMatch`; the token
+          -- is not pushed back (since "an incomplete media query in a media list is an error …")
+          .ok ({ l with prods := prods, st := st, wellformed := false }, src)
         | .ok (m, f) =>
           let l := { l with prods := prods, st := st, stopIf := f.stopIf || l.stopIf, lastMayEnd := some f.mayEnd }
           let l := if f.store == 1 then { l with mediaType := some t }
